@@ -338,6 +338,11 @@ func runTLS(t *testing.T, k *hsKind, c hsCase) (res hsResult) {
 	return res
 }
 
+// formattingSink is an io.Writer that is not io.Discard: log.Logger formats its arguments for it.
+type formattingSink struct{}
+
+func (formattingSink) Write(p []byte) (int, error) { return len(p), nil }
+
 // runProxy is seam B2: the real proxyserver.Server.
 func runProxy(t *testing.T, k *hsKind, c hsCase) (res hsResult) {
 	h2 := c.Seam == "proxyserver-h2"
@@ -359,7 +364,14 @@ func runProxy(t *testing.T, k *hsKind, c hsCase) (res hsResult) {
 			w.WriteHeader(204)
 		})
 		srv := proxyserver.NewServer(ctx, handler, serverConfig(k))
-		srv.ErrorLog = log.New(io.Discard, "", 0)
+		// the binary's -verbose switch, for half of the cases (by the parity of the cut positions): it may only add log
+		// lines. The logger formats what it is given (a logger on io.Discard would skip that).
+		vsum := 0
+		for _, x := range c.Cuts {
+			vsum += x
+		}
+		srv.VerboseLogs = vsum%2 == 0
+		srv.ErrorLog = log.New(formattingSink{}, "", 0)
 		srv.HTTPServer.ErrorLog = srv.ErrorLog
 		ln := memnet.NewListener()
 		served := make(chan struct{})
@@ -604,6 +616,9 @@ func runHandshakePart(t *testing.T, rep *ev.Report, shard, of int, thorough bool
 			{"proxyserver-h2", "go-tls13", "all", "restricted", true, true},
 			{"proxyserver-h2", "utls-chrome106", "all", "", true, false},
 			{"proxyserver-h1", "go-tls12", "all", "", true, false},
+			// hellos longer than 1 KiB (post-quantum key shares) through the proxy server
+			{"proxyserver-h2", "utls-chrome115-pq", "all", "", true, false}, // (utls presets always offer h2)
+			{"proxyserver-h1", "go-tls13-default-keyshares", "all", "", true, false},
 		}
 	} else {
 		plans = []planT{
@@ -616,6 +631,9 @@ func runHandshakePart(t *testing.T, rep *ev.Report, shard, of int, thorough bool
 			{"proxyserver-h1", "go-tls13", "all", "restricted", true, true},
 			{"proxyserver-h2", "go-tls13", "all", "", true, false},
 			{"proxyserver-h2", "utls-chrome106", "restricted", "", false, false},
+			// hellos longer than 1 KiB (post-quantum key shares) through the proxy server
+			{"proxyserver-h2", "utls-chrome115-pq", "restricted", "", false, false}, // (utls presets always offer h2)
+			{"proxyserver-h1", "go-tls13-default-keyshares", "restricted", "", false, false},
 		}
 	}
 	var cases []hsCase
